@@ -7,7 +7,7 @@ from . import tlaval, tlc
 
 def main() -> int:
     assert tlaval.parse('<<"V", 3, "ok">>') == ["V", 3, "ok"]
-    mods = sorted(p for p in tlc.SPEC.rglob("*.tla"))
+    mods = sorted(p for p in tlc.SPEC.rglob("*.tla") if ".tlacache" not in p.parts)
     bad = []
     with ThreadPoolExecutor(8) as ex:
         for m, (ok, out) in zip(mods, ex.map(tlc.sany, mods)):
